@@ -609,3 +609,115 @@ func (c *Ctx) constructorOf(oi *opInfo) *ssa.Function {
 	}
 	return nil
 }
+
+// ---- R33: optional tensor-valued attributes are nil-tested before use ---------------------------------
+//
+// An attribute that ONNX declares optional and that the operator keeps as a tensor (an interface value that
+// Init only sets inside the attribute's own case) is nil when the node does not carry it. Every use of such a
+// field outside Init — as an argument, a receiver, an operand — must be dominated by the non-nil edge of a
+// test of that same field, or the constructor must give it a value. Otherwise the operator panics with a nil
+// dereference instead of computing the formula without the optional term (or refusing).
+var optionalTensorAttrs = map[string][]string{
+	"LinearRegressor": {"intercepts"}, // ONNX-ML: intercepts optional, coefficients required
+}
+
+func ruleOptionalAttrTensors(c *Ctx, prop string) {
+	n := 0
+	for _, op := range sortedKeys(optionalTensorAttrs) {
+		oi := c.opByName(op)
+		if oi == nil {
+			c.undecided("R33", "R33:"+op, "", "operator type not found")
+			continue
+		}
+		for _, field := range optionalTensorAttrs[op] {
+			key := fmt.Sprintf("R33:optional-attr:%s.%s", op, field)
+			fi := fieldIndex(oi.named, field)
+			if fi < 0 {
+				c.undecided("R33", key, c.pos(oi.named.Obj().Pos()), "attribute field no longer exists: the table of optional tensor attributes must be re-confirmed")
+				continue
+			}
+			n++
+			isFieldLoad := func(v ssa.Value) bool {
+				ld, ok := v.(*ssa.UnOp)
+				if !ok || ld.Op != token.MUL {
+					return false
+				}
+				fa, ok := ld.X.(*ssa.FieldAddr)
+				if !ok || fa.Field != fi {
+					return false
+				}
+				nn, _ := structOfPtr(fa.X.Type())
+				return nn != nil && nn.Obj() == oi.named.Obj()
+			}
+			// constructor default
+			if ctor := c.constructorOf(oi); ctor != nil {
+				set := false
+				for _, b := range ctor.Blocks {
+					for _, in := range b.Instrs {
+						if st, ok := in.(*ssa.Store); ok {
+							if fa, ok := st.Addr.(*ssa.FieldAddr); ok && fa.Field == fi && !isNilConst(st.Val) {
+								if nn, _ := structOfPtr(fa.X.Type()); nn != nil && nn.Obj() == oi.named.Obj() {
+									set = true
+								}
+							}
+						}
+					}
+				}
+				if set {
+					c.discharge("R33", key, c.pos(ctor.Pos()), "the constructor gives the optional attribute a value")
+					continue
+				}
+			}
+			nonNilAt := func(b *ssa.BasicBlock) bool {
+				for _, g := range guardsOf(b) {
+					for _, a := range atomsOf(g) {
+						if a.op == token.NEQ && ((isFieldLoad(a.x) && isNilConst(a.y)) || (isFieldLoad(a.y) && isNilConst(a.x))) {
+							return true
+						}
+					}
+				}
+				return false
+			}
+			bad, uses, tests := "", 0, 0
+			for _, m := range c.libFns {
+				if m == oi.methods["Init"] || m == c.constructorOf(oi) {
+					continue
+				}
+				for _, b := range m.Blocks {
+					for _, in := range b.Instrs {
+						v, ok := in.(ssa.Value)
+						if !ok || !isFieldLoad(v) {
+							continue
+						}
+						for _, r := range *v.Referrers() {
+							// only calls dereference the value (as receiver or in a callee); comparisons, returns,
+							// phis and conversions merely pass it on
+							if _, isCall := r.(ssa.CallInstruction); !isCall {
+								if _, isCmp := r.(*ssa.BinOp); isCmp {
+									tests++
+								}
+								continue
+							}
+							uses++
+							if !nonNilAt(r.Block()) && bad == "" {
+								bad = c.pos(r.Pos())
+								if r.Pos() == token.NoPos {
+									bad = c.pos(v.Pos())
+								}
+							}
+						}
+					}
+				}
+			}
+			switch {
+			case bad != "":
+				c.violate("R33", key, bad, fmt.Sprintf("the optional attribute %s is used here without a dominating `%s != nil` test: for a node without the attribute the field is a nil tensor and the operator panics (nil dereference) instead of computing the formula without the term", field, field))
+			case uses == 0 && tests == 0:
+				c.undecided("R33", key, c.pos(oi.named.Obj().Pos()), "no use of the field found outside Init")
+			default:
+				c.discharge("R33", key, c.pos(oi.named.Obj().Pos()), fmt.Sprintf("%d dereferencing uses outside Init, each on the non-nil edge of a test of the field (%d nil tests)", uses, tests))
+			}
+		}
+	}
+	c.counts["R33.optional_tensor_attributes"] += n
+}
